@@ -385,8 +385,8 @@ Lemmas/C16Descent.lean); the theorems below are invariants of those steps (Lemma
 section Document
 open KinModel.Internalize
 
-theorem run_invText (h : Heap) (s : St) (hd : internalize h = .done s) : InvText s :=
-  Reach.invariant InvText (invText_step h) (internalize_reach h s hd) (invText_init h)
+theorem run_invText (h : Heap) (s : St) (hd : internalize h = .done s) : InvText h s :=
+  Reach.invariant (InvText h) (invText_step h) (internalize_reach h s hd) (invText_init h)
 theorem run_invEmpty (h : Heap) (s : St) (hd : internalize h = .done s) : InvEmpty h s :=
   Reach.invariant (InvEmpty h) (invEmpty_step h) (internalize_reach h s hd) (invEmpty_init h)
 theorem run_invShape (h : Heap) (s : St) (hd : internalize h = .done s) : InvShape h s :=
@@ -397,10 +397,16 @@ theorem run_invIdent (h : Heap) (s : St) (hd : internalize h = .done s) : InvIde
   Reach.invariant InvIdent (invIdent_step h defaultName_ident) (internalize_reach h s hd) (invIdent_init h)
 
 /-- **(i) no reference text points outside the document.** After internalisation every reference cell an
-add<Kind>ToSpec call was made on holds the empty text (the value is written in place) or a text under `#/components/`.
-No hypothesis. (Cells no call is made on — the Examples of parameters and headers — are finding F-C16-7.) -/
+add<Kind>ToSpec call was made on, and that has a value, holds the empty text (the value is written in place) or a text
+under `#/components/`. No hypothesis on the run. (Cells no call is made on — the Examples of parameters and headers — are finding F-C16-7.) -/
 theorem all_refs_internal (h : Heap) (s : St) (hd : internalize h = .done s) :
-    ∀ c ∈ touched s, intText s.refs[c]! = true := run_invText h s hd
+    ∀ c ∈ touched s, 0 ≤ valOf h c → intText s.refs[c]! = true := run_invText h s hd
+
+/-- a reference the loader left WITHOUT value is left alone (05c5875): never given a name, its text is as loaded (or
+cleared). Such a text may point outside the document — class `Unresolved`, F-C16-10. -/
+theorem unresolved_refs_left_alone (h : Heap) (s : St) (hd : internalize h = .done s) (c : Nat) (hv : valOf h c < 0) :
+    s.refs[c]! = origRef h c ∨ s.refs[c]! = [] :=
+  Reach.invariant (InvNil h) (invNil_step h) (internalize_reach h s hd) (invNil_init h) c hv
 
 /-- every path item the descent entered is inlined (`$ref` cleared) -/
 theorem visited_path_items_inlined (h : Heap) (s : St) (hd : internalize h = .done s) :
@@ -618,9 +624,11 @@ infinite tree -/
 theorem witness_inlined_cycle :
     doneB hInlineCycle (fun s => InlinedCycle hInlineCycle s && !specB hInlineCycle s) = true := by decide +kernel
 
-/-- F-C16-10: the loader left `openapi.json#/components/links/L8` without value; InternalizeRefs rewrites it -/
+/-- F-C16-10: the loader left `openapi.json#/components/links/L8` without value; InternalizeRefs leaves it alone (05c5875)
+and the text that points to another file stays in the result -/
 theorem witness_loader_unresolved :
-    doneB hLoaderUnresolved (fun s => Unresolved hLoaderUnresolved && !specB hLoaderUnresolved s) = true := by decide +kernel
+    doneB hLoaderUnresolved (fun s => Unresolved hLoaderUnresolved && !specB hLoaderUnresolved s &&
+      s.refs[2]! == "openapi.json#/components/links/L8".toList) = true := by decide +kernel
 
 /-- regression of F-C16-2 (cbb0d05, b68fdca): a header reference in an encoding entry — internal … -/
 theorem regression_encoding_header_internal :
